@@ -9,7 +9,7 @@ import ast
 from z3 import *
 from pyvc.core import *
 
-PROPS = ['C13', 'C14']
+PROPS = ['C13', 'C14', 'C15']
 REPLAY = {'driver': 'delay'}
 REL = 'taskiq/cli/scheduler/run.py'
 US = 1000000
@@ -132,7 +132,7 @@ def h_int(ex, st, e, recv, args, kw, k, K):
     v = args[0]
     if isinstance(v, tuple) and v[0] == 'secs':        # int(td.total_seconds())
         tus = v[1]
-        oblige(st, "get_task_delay/range@int(total_seconds()): 0 <= delay <= 61 s (float conversion exact)  [C14]", And(tus >= 0, tus <= 61 * US))
+        oblige(st, "get_task_delay/range@int(total_seconds()): 0 <= delay <= 61 s (float conversion exact)  [C14/C15]", And(tus >= 0, tus <= 61 * US))
         return k(st, PyInt(tus / US))
     return k(st, PyInt(ex.as_int(v)))
 def h_astimezone(ex, st, e, recv, args, kw, k, K):
@@ -197,17 +197,17 @@ def generate(src):
                Implies(cronb, And(g['is_now_calls'] == 1, g['is_now_a0'] == task['cron'], g['is_now_a1'] == SHIFT)), witness=W2, replay=rp)
         if not g['__explicit']: oblige(s, "get_task_delay/post: the clock is read exactly once  [C13/C14]", g['clock_reads'] == 1, witness=W2, replay=rp)
         timeb = And(task['cron'] == Val.none, task['time'] != Val.none)
-        oblige(s, "get_task_delay/post: T <= now ==> due immediately (0)  [C14]", Implies(And(timeb, T <= now_us), r == Val.intv(0)), witness=W2, replay=rp)
-        oblige(s, "get_task_delay/post: T more than 1 s past the next minute boundary ==> left for a later poll (None)  [C14]", Implies(And(timeb, T > Hz), r == Val.none), witness=W2, replay=rp)
-        oblige(s, "get_task_delay/post: otherwise whole seconds d with T <= now + d < T + 1 s  [C14]",
+        oblige(s, "get_task_delay/post: T <= now ==> due immediately (0)  [C14/C15]", Implies(And(timeb, T <= now_us), r == Val.intv(0)), witness=W2, replay=rp)
+        oblige(s, "get_task_delay/post: T more than 1 s past the next minute boundary ==> left for a later poll (None)  [C14/C15]", Implies(And(timeb, T > Hz), r == Val.none), witness=W2, replay=rp)
+        oblige(s, "get_task_delay/post: otherwise whole seconds d with T <= now + d < T + 1 s  [C14/C15]",
                Implies(And(timeb, now_us < T, T <= Hz), And(Val.is_intv(r), T <= now_us + Val.i(r) * US, now_us + Val.i(r) * US < T + US)), witness=W2, replay=rp)
-        oblige(s, "get_task_delay/post: the time branch never consults the cron matcher  [C14]", Implies(timeb, g['is_now_calls'] == 0), witness=W2, replay=rp)
+        oblige(s, "get_task_delay/post: the time branch never consults the cron matcher  [C14/C15]", Implies(timeb, g['is_now_calls'] == 0), witness=W2, replay=rp)
         reach(s, f"get_task_delay/reach@return#{exits['return']}", witness=W2, replay=rp)
     def on_exc(s, x):
         exits['raise'] += 1; g = G(s)
         oblige(s, "get_task_delay/raises: only what is_now raises (ValueError) or an unknown zone name (KeyError from pytz.timezone)  [C13/C14]",
                BoolVal(g['raised_by'] in ('is_now', 'pytz.timezone')), witness={'raised_by': STR.get(str(g['raised_by']))}, replay=rp)
-        oblige(s, "get_task_delay/raises: never on the time branch  [C14]", task['cron'] != Val.none, replay=rp)
+        oblige(s, "get_task_delay/raises: never on the time branch  [C14/C15]", task['cron'] != Val.none, replay=rp)
     for explicit in ([False, True] if extra else [False]):
         st = State(); st.pc = list(pre); st.env = {'task': task}; tag = "(explicit instant) " if explicit else ""
         other_us = Int('other_clock_us')
